@@ -528,6 +528,25 @@ type jworld struct {
 	atBegin int
 }
 
+// newJWorldSmall is newJWorld with a write buffer of two entries (the capacity-triggered paths of
+// the writer are reached with a handful of writes instead of a thousand).
+func newJWorldSmall() func() (any, error) {
+	return func() (any, error) {
+		dir, err := os.MkdirTemp(vk.TmpRoot(), "c14j-")
+		if err != nil {
+			return nil, err
+		}
+		path := filepath.Join(dir, "kektordb.aof")
+		u, err := persistence.NewAOFWriter(path, 0)
+		if err != nil {
+			return nil, err
+		}
+		w := &jworld{dir: dir, path: path, lw: persistence.NewLazyAOFWriterWithConfig(u, 0, 0, 2), atClose: -1, atFlush: -1}
+		synctest.Wait()
+		return w, nil
+	}
+}
+
 func newJWorld(snapshotMode bool) func() (any, error) {
 	return func() (any, error) {
 		dir, err := os.MkdirTemp(vk.TmpRoot(), "c14j-")
@@ -747,6 +766,10 @@ func scenarios(thorough bool) []*explore.Scenario {
 			Threads: []explore.Thread{T("writer", jwriter(3)), T("closer", jcloser)}},
 		{Name: "journal/flush-vs-writer", Setup: newJWorld(false), Check: jcheck, Cleanup: jcleanup, Filter: schedFilter,
 			Threads: []explore.Thread{T("writer", jwriter(2)), T("flusher", jflusher)}},
+		{Name: "journal/flush-vs-writer-small-buffer", Setup: newJWorldSmall(), Check: jcheck, Cleanup: jcleanup, Filter: schedFilter,
+			Threads: []explore.Thread{T("writer", jwriter(5)), T("flusher", jflusher)}},
+		{Name: "journal/close-vs-writer-small-buffer", Setup: newJWorldSmall(), Check: jcheck, Cleanup: jcleanup, Filter: schedFilter,
+			Threads: []explore.Thread{T("writer", jwriter(5)), T("closer", jcloser)}},
 		{Name: "journal/snapshot-protocol-vs-writer", Setup: newJWorld(false), Check: jcheck, Cleanup: jcleanup, Filter: schedFilter,
 			Threads: []explore.Thread{T("writer", jwriter(3)), T("snapshot", jsnapshotter)}},
 		{Name: "journal/snapshot-protocol-vs-close-vs-writer", Setup: newJWorld(false), Check: jcheck, Cleanup: jcleanup, Filter: schedFilter,
@@ -755,11 +778,11 @@ func scenarios(thorough bool) []*explore.Scenario {
 			Threads: []explore.Thread{T("writer", kvWriter("w", 2))}},
 		{Name: "auto-snapshot-vs-overwriter-vs-flush", Setup: newWorld(false, true), Check: check, Cleanup: cleanup, Filter: schedFilter, MaxTicks: 1, TickStep: time.Second,
 			Threads: []explore.Thread{T("writer", kvOverwriter("k", 2)), T("flusher", flusher("f", false))}},
+		mk("two-writers-vs-snapshot", false, false, 0, T("w1", kvWriter("a", 1)), T("w2", kvWriter("b", 2)), T("snapshot", snapshotter)),
 		mk("periodic-flush-vs-writer", false, false, 2, T("writer", kvWriter("w", 2)), T("flusher", flusher("f", false))),
 	}
 	if thorough || os.Getenv("VERIF_SCENARIO") != "" {
 		s = append(s,
-			mk("two-writers-vs-snapshot", false, false, 0, T("w1", kvWriter("a", 2)), T("w2", kvWriter("b", 2)), T("snapshot", snapshotter)),
 			mk("two-writers-vs-rewrite", false, false, 0, T("w1", kvWriter("a", 2)), T("w2", vecWriterKV()), T("rewrite", rewriter)),
 		)
 	}
